@@ -46,6 +46,9 @@ RULE = (
     "plus every public cluster / sweep / cursor / fold entry point with its degenerate parameter (flip probability 0, tiny, 1/2, 1; empty "
     "ranges; beta = 0; zero steps; cursor borrowed and returned at once; empty manager) and LARGE runs (operator strings of 6000-14000 "
     "operators, pooled vectors far beyond 4096 entries) "
+    "cold starts (first call of each update kind on a fresh sampler), cursor re-use across 2-4 windows through SubvarAccess::Args, all of it on "
+    "three allocator configurations (DefaultFastOpAllocator; SwitchableFastOpAllocator wrapping a bounded pool; the wrapper without a pool - "
+    "vacuous there, run for panics with a silent hook) "
     "along random call histories on Ising samplers "
     "(14-17 lattices incl. pair, rings, isolated variables, frustrated; heat bath on/off; RVB on/off; h = 0 and h != 0; beta 1/64..8; "
     "cutoff 1..4n, so the first calls see an empty operator string) and generic samplers (single spin, Heisenberg/XXZ chains with loop "
@@ -75,7 +78,7 @@ def main(ck):
     shape_fails = [l.split("RESET-SHAPE FAIL ", 1)[1] for l in (out + err).splitlines() if "RESET-SHAPE FAIL " in l]
     ck.oblige(
         "what return_instance does to a buffer has the modelled shape (impl Reset for Vec/BinaryHeap/BondContainer, "
-        "BondContainer::clear, Allocator::{get_instance, return_instance}, verif_is_clean probes)",
+        "BondContainer::clear, Allocator::{get_instance, return_instance}, verif_is_clean probes, forwarding Factory impls of fast_op_alloc.rs)",
         rc in (0, 2) and not shape_fails,
         "; ".join(shape_fails),
     )
